@@ -156,3 +156,16 @@ Theorem C20_unsupported_script_refuted :
   parse H Cli "addr" (render Cli "addr" [u_plutus_v3]) = Err "KeyError".
 Proof. exact script_unsupported_refuted. Qed.
 Print Assumptions C20_unsupported_script_refuted.
+
+(* KNOWN FINDING C20-cli-inline-datum-map-key (region cli_datum_map_key): outside wf_pdata — a Plutus map whose key is a
+   constructor/list/map, or with a repeated key — the cardano-cli adapter (RawPlutusData.from_dict builds a Python dict)
+   raises for the whole address query, or silently reports a different datum value (last duplicate wins) *)
+Theorem C20_cli_datum_map_key_refuted :
+  let H := fun _ : bytes => repeat Byte.xee 28 in
+  parse H Cli "addr" (render Cli "addr" [u_map_constr_key]) = Err "TypeError" /\
+  (exists o, parse H Cli "addr" (render Cli "addr" [u_map_dup_key]) = Ok [o] /\
+             a_datum o = Some (AData (YDict [(YInt 1, YInt 2)])) /\
+             pdata_of_pyd (YDict [(YInt 1, YInt 2)]) = Some (PMap [(PInt 1, PInt 2)]) /\
+             PMap [(PInt 1, PInt 2)] <> PMap [(PInt 1, PInt 1); (PInt 1, PInt 2)]).
+Proof. exact cli_datum_map_key_refuted. Qed.
+Print Assumptions C20_cli_datum_map_key_refuted.
